@@ -222,7 +222,15 @@ class Impl:
                     else:
                         M.add_metabolites([self.cobra.Metabolite("M%d" % a[0], compartment="c")])
                 elif n == "RemoveMet":
-                    M.remove_metabolites([M.metabolites.get_by_id("M%d" % a[0])], destructive=bool(a[1]))
+                    met = M.metabolites.get_by_id("M%d" % a[0])
+                    if len(a) > 2 and a[2] == "pair":
+                        # one call with TWO metabolites, the later one of model.metabolites first: a temporary metabolite
+                        # is added (it is the last one) and removed together with `met` -- the same final content
+                        tmp = self.cobra.Metabolite("ZZ_tmp_met", compartment="c")
+                        M.add_metabolites([tmp])
+                        M.remove_metabolites([tmp, met], destructive=bool(a[1]))
+                    else:
+                        M.remove_metabolites([met], destructive=bool(a[1]))
                 elif n == "SetBounds":
                     self.rx[a[0]].bounds = (fnum(a[1]), fnum(a[2]))
                 elif n == "SetLb":
@@ -520,6 +528,8 @@ def gen_history(rng, length, solver="glpk", ctx_p=0.12, max_depth=3, fail_p=0.15
             c = mets_in()
             if c:
                 o = ["RemoveMet", rng.choice(c), rng.random() < 0.35]
+                if rng.random() < 0.4:
+                    o.append("pair")
         elif n in ("SetBounds", "SetLb", "SetUb", "KnockOut"):
             c = list(im.rx)
             if c:
